@@ -6,6 +6,7 @@ import (
 	"math"
 	"reflect"
 	"strconv"
+	"strings"
 	"time"
 
 	yaml "gopkg.in/yaml.v2"
@@ -32,7 +33,7 @@ func conversionError(modifier string, value any, typ reflect.Type) error {
 	if ref, ok := value.(reflect.Value); ok {
 		value = ref.Interface()
 	}
-	return typeErrorf("can't convert %s%T(%v) to type %s", modifier, value, value, typ)
+	return typeErrorf("can't convert %s%T(%v) to type %s", modifier, value, Plain(value), typ)
 }
 
 func convertValueToInt(value any, typ reflect.Type) (int64, error) {
@@ -97,41 +98,136 @@ func Sprint(value any) string {
 	return fmt.Sprint(value)
 }
 
-// Plain returns a copy of a map or slice in which every nested Drop is replaced by its
+// Plain returns a copy of a map, slice or struct in which every nested Drop is replaced by its
 // ToLiquid value and every pointer by what it points to, so that printing the result shows
 // Liquid values rather than Go struct syntax or memory addresses.
 func Plain(value any) any {
-	value = ToLiquid(value)
-	if value == nil {
+	return plain(reflect.ValueOf(value), nil)
+}
+
+// plainStruct stands for a struct that holds pointers: its field values, printed as fmt prints a struct.
+type plainStruct []any
+
+func (p plainStruct) String() string {
+	ss := make([]string, len(p))
+	for i, v := range p {
+		ss[i] = fmt.Sprint(v)
+	}
+	return "{" + strings.Join(ss, " ") + "}"
+}
+
+var (
+	stringerType  = reflect.TypeOf((*fmt.Stringer)(nil)).Elem()
+	formatterType = reflect.TypeOf((*fmt.Formatter)(nil)).Elem()
+	errorType     = reflect.TypeOf((*error)(nil)).Elem()
+)
+
+// printsItself reports whether fmt prints values of type t through a method rather than field by field.
+func printsItself(t reflect.Type) bool {
+	return t.Implements(stringerType) || t.Implements(formatterType) || t.Implements(errorType)
+}
+
+// plain implements Plain. open holds the pointers being followed, so that a value that refers
+// back to itself ends in nil instead of never ending.
+func plain(rv reflect.Value, open []uintptr) any {
+	for rv.IsValid() && rv.Kind() == reflect.Interface {
+		rv = rv.Elem()
+	}
+	if rv.IsValid() && rv.CanInterface() {
+		if d, ok := rv.Interface().(drop); ok {
+			if rv.Kind() == reflect.Ptr && !rv.IsNil() {
+				// Drops may yield each other (a page whose value holds the next page, and back)
+				p := rv.Pointer()
+				for _, o := range open {
+					if o == p {
+						return nil
+					}
+				}
+				open = append(open, p)
+			}
+			return plain(reflect.ValueOf(d.ToLiquid()), open)
+		}
+	}
+	if !rv.IsValid() {
 		return nil
 	}
-	rv := reflect.ValueOf(value)
 	switch rv.Kind() {
 	case reflect.Ptr:
 		if rv.IsNil() {
 			return nil
 		}
-		if rv.Elem().Kind() == reflect.Struct {
-			return value
+		if rv.CanInterface() && rv.Elem().Kind() == reflect.Struct && printsItself(rv.Type()) {
+			return rv.Interface()
 		}
-		return Plain(rv.Elem().Interface())
+		p := rv.Pointer()
+		for _, o := range open {
+			if o == p {
+				return nil
+			}
+		}
+		return plain(rv.Elem(), append(open, p))
 	case reflect.Map:
+		if rv.IsNil() && rv.CanInterface() {
+			return rv.Interface()
+		}
 		out := make(map[any]any, rv.Len())
-		for _, k := range rv.MapKeys() {
-			out[k.Interface()] = Plain(rv.MapIndex(k).Interface())
+		for iter := rv.MapRange(); iter.Next(); {
+			var k any = fmt.Sprint(iter.Key())
+			if iter.Key().CanInterface() {
+				k = iter.Key().Interface()
+			}
+			out[k] = plain(iter.Value(), open)
 		}
 		return out
 	case reflect.Slice, reflect.Array:
-		if rv.Type().Elem().Kind() == reflect.Uint8 {
-			return value
+		if rv.Type().Elem().Kind() == reflect.Uint8 && rv.CanInterface() {
+			return rv.Interface()
 		}
 		out := make([]any, rv.Len())
 		for i := range out {
-			out[i] = Plain(rv.Index(i).Interface())
+			out[i] = plain(rv.Index(i), open)
+		}
+		return out
+	case reflect.Struct:
+		if rv.CanInterface() && (printsItself(rv.Type()) || !holdsReferences(rv.Type(), nil)) {
+			return rv.Interface()
+		}
+		out := make(plainStruct, rv.NumField())
+		for i := range out {
+			out[i] = plain(rv.Field(i), open)
 		}
 		return out
 	}
-	return value
+	if rv.CanInterface() {
+		return rv.Interface()
+	}
+	return rv // an unexported field: fmt prints the value a reflect.Value holds
+}
+
+// holdsReferences reports whether a value of type t can hold a pointer, Drop or collection,
+// so that printing it field by field could differ from printing its Plain copy.
+func holdsReferences(t reflect.Type, seen []reflect.Type) bool {
+	switch t.Kind() {
+	case reflect.Ptr, reflect.Interface, reflect.Map, reflect.Slice:
+		return true
+	case reflect.Array:
+		return holdsReferences(t.Elem(), seen)
+	case reflect.Struct:
+		if printsItself(t) {
+			return false
+		}
+		for _, s := range seen {
+			if s == t {
+				return false
+			}
+		}
+		for i := 0; i < t.NumField(); i++ {
+			if holdsReferences(t.Field(i).Type, append(seen, t)) {
+				return true
+			}
+		}
+	}
+	return false
 }
 
 // Convert value to the type. This is a more aggressive conversion, that will
@@ -298,7 +394,7 @@ func Convert(value any, typ reflect.Type) (any, error) { //nolint: gocyclo
 		case fmt.Stringer:
 			return value.String(), nil
 		default:
-			return Sprint(value), nil
+			return Sprint(Plain(value)), nil
 		}
 	}
 	return nil, conversionError("", value, typ)
